@@ -274,8 +274,11 @@ def block_distributed_range(start, stop):
     else:
 
         # the block is recorded also here; the functions which collect data
-        # read it (the list and array versions of this function do the same)
-        config.range = [start, stop]
+        # read it (the list and array versions of this function do the same).
+        # In a nested region the record belongs to the loop of the outermost
+        # region and is left alone
+        if config.parallel_region == 1:
+            config.range = [start, stop]
         
         return range(start, stop)
 
@@ -324,7 +327,9 @@ def block_distributed_list(dlist, return_index=False):
     else:
 
         rng = [0, len(dlist)]
-        config.range = rng
+        # in a nested region the record belongs to the outermost loop
+        if config.parallel_region == 1:
+            config.range = rng
         
         if return_index:
             lst = []
@@ -366,7 +371,9 @@ def block_distributed_array(array, return_index=False):
     else:
 
         rng = [0, array.shape[0]]
-        config.range = rng
+        # in a nested region the record belongs to the outermost loop
+        if config.parallel_region == 1:
+            config.range = rng
         
         if return_index:
             lst = []
